@@ -47,6 +47,7 @@ pub fn cases(tier: Tier) -> Vec<GCase> {
             });
             let mut c = GCase::new(g, Expect::Sat(vec![sum.x, sum.y]), "add_point");
             c.bound2 = true;
+            c.rewire = true;
             // solved-for forgery triples: a wrong helper x1*y2 with x3, y3 solved
             // from the two remaining identities
             let (p1c, p2c) = (*p1, *p2);
